@@ -153,4 +153,5 @@ package bytes
 //@   ensures !(len(b) >= 2 && b[0] == '"' && b[len(b)-1] == '"') ==> result == b
 //@   ensures old(plainQuoted(b)) ==> result.$arr == b.$arr && result.$off == b.$off + 1 && len(result) == len(b) - 2
 //@   defines len(result) == old(decLen(b))
+//@   defines result == unqOf(b)
 //@   defines forall i {result[i]} :: 0 <= i && i < len(result) ==> result[i] == old(decAt(b, i))
